@@ -62,7 +62,16 @@ impl KeyMat {
         }
     }
     pub fn public(&self) -> PublicKeyBuf {
-        self.signing_key().to_public_key().expect("public key")
+        self.shared().to_public_key().expect("public key")
+    }
+    /// The parsed signing key, cached per key file (parsing PKCS#8, RSA in particular, is slow).
+    pub fn shared(&self) -> std::sync::Arc<Box<dyn SigningKey>> {
+        use std::collections::HashMap;
+        use std::sync::{Arc, Mutex, OnceLock};
+        static CACHE: OnceLock<Mutex<HashMap<&'static str, Arc<Box<dyn SigningKey>>>>> = OnceLock::new();
+        let c = CACHE.get_or_init(|| Mutex::new(HashMap::new()));
+        let mut g = c.lock().unwrap();
+        g.entry(self.id).or_insert_with(|| Arc::new(self.signing_key())).clone()
     }
 }
 
